@@ -66,16 +66,7 @@ pub fn c01() -> EngineProp {
     EngineProp {
         id: "C01",
         oracles: Oracles { converge: true, ..Default::default() },
-        profiles: vec![
-            (Profile::General, 9000, 300_000),
-            (Profile::Lossy, 12000, 500_000),
-            (Profile::Structural, 7000, 250_000),
-            (Profile::Vis, 6000, 200_000),
-            (Profile::Periodic, 3000, 100_000),
-            (Profile::Related, 3000, 100_000),
-            (Profile::Split, 12000, 400_000),
-            (Profile::Tight, 12000, 400_000),
-        ],
+        profiles: vec![(Profile::General, 15000, 300_000), (Profile::Lossy, 20000, 500_000), (Profile::Structural, 12000, 250_000), (Profile::Vis, 10000, 200_000), (Profile::Periodic, 5000, 100_000), (Profile::Related, 6000, 100_000), (Profile::Split, 30000, 600_000), (Profile::Tight, 30000, 600_000)],
         nontrivial: |s| {
             has(s, "frame_without_tick_between_ops")
                 || has(s, "mut_overtook_upd")
@@ -96,7 +87,7 @@ pub fn c02() -> EngineProp {
     EngineProp {
         id: "C02",
         oracles: Oracles { values: true, ..Default::default() },
-        profiles: vec![(Profile::Lossy, 16000, 600_000), (Profile::General, 9000, 300_000), (Profile::Structural, 5000, 200_000), (Profile::Related, 3000, 100_000), (Profile::Split, 16000, 500_000), (Profile::Tight, 6000, 200_000)],
+        profiles: vec![(Profile::Lossy, 25000, 600_000), (Profile::General, 12000, 300_000), (Profile::Structural, 8000, 200_000), (Profile::Related, 5000, 100_000), (Profile::Split, 40000, 800_000), (Profile::Tight, 10000, 200_000), (Profile::Sessions, 30000, 600_000)],
         nontrivial: |s| has(s, "mut_overtook_upd") || has(s, "mut_reordered") || has(s, "mut_dropped"),
         rule: "cases as C01; after EVERY client frame each mapped entity's continuously replicated components are compared with the recorded server snapshot \
                at the entity's ConfirmHistory::last_tick (all components against the same tick), once-components against the set of server values up to that tick, \
@@ -109,7 +100,7 @@ pub fn c03() -> EngineProp {
     EngineProp {
         id: "C03",
         oracles: Oracles { structure: true, ..Default::default() },
-        profiles: vec![(Profile::Structural, 16000, 600_000), (Profile::General, 8000, 300_000), (Profile::Vis, 18000, 400_000), (Profile::Related, 2000, 100_000), (Profile::Tight, 20000, 600_000)],
+        profiles: vec![(Profile::Structural, 30000, 600_000), (Profile::General, 12000, 300_000), (Profile::Vis, 40000, 600_000), (Profile::Related, 4000, 100_000), (Profile::Tight, 50000, 900_000)],
         nontrivial: |s| has(s, "frame_without_tick_between_ops") || has(s, "multi_upd_one_client_frame") || has(s, "vis_change"),
         rule: "cases as C01 with a structure-heavy profile; after EVERY client frame: ServerUpdateTick never decreases and is 0 or a tick at which an update message \
                was sent to this client; key set of the entity map, its inverse, Replicated markers and per-entity component sets equal the recorded structure the \
@@ -123,7 +114,7 @@ pub fn c08() -> EngineProp {
     EngineProp {
         id: "C08",
         oracles: Oracles { wire: true, isvis: true, structure: true, converge: true, ..Default::default() },
-        profiles: vec![(Profile::Vis, 30000, 1_000_000)],
+        profiles: vec![(Profile::Vis, 100000, 2_000_000)],
         nontrivial: |s| has(s, "vis_change") && (has(s, "clients_see_different_sets") || has(s, "frame_without_tick_between_ops")),
         rule: "visibility-heavy cases under Blacklist and Whitelist with 2-3 clients; every entity's C component carries an 8-byte secret unique per write; \
                oracle: no replication message for client c contains the secret of an entity hidden from c in that frame (raw substring search), \
@@ -137,7 +128,7 @@ pub fn c09() -> EngineProp {
     EngineProp {
         id: "C09",
         oracles: Oracles { converge: true, values: true, structure: true, session: true, ev_once: true, ev_tick: true, ..Default::default() },
-        profiles: vec![(Profile::Faults, 30000, 1_000_000), (Profile::Sessions, 30000, 1_000_000)],
+        profiles: vec![(Profile::Faults, 60000, 1_200_000), (Profile::Sessions, 80000, 1_600_000)],
         nontrivial: |s| {
             (has(s, "disconnect") || has(s, "server_restart"))
                 && (has(s, "disc_updates_in_flight")
@@ -158,7 +149,7 @@ pub fn c16() -> EngineProp {
     EngineProp {
         id: "C16",
         oracles: Oracles { adoption: true, structure: true, values: true, converge: true, ..Default::default() },
-        profiles: vec![(Profile::Prespawn, 30000, 1_000_000)],
+        profiles: vec![(Profile::Prespawn, 80000, 1_600_000)],
         nontrivial: |s| has(s, "prespawn") && (has(s, "prespawn_mapping_in_later_frame") || has(s, "mut_overtook_upd") || has(s, "frame_without_tick_between_ops")),
         rule: "C01 steps plus PreSpawn{client, slot, kill, gap}: the client spawns a local entity, the server spawns its entity and registers the mapping in the same \
                frame or a later frame of the same tick window; oracle after every client frame: while the adoption is current the server entity maps to the \
@@ -172,7 +163,7 @@ pub fn c04() -> EngineProp {
     EngineProp {
         id: "C04",
         oracles: Oracles { ev_tick: true, ..Default::default() },
-        profiles: vec![(Profile::Events, 30000, 800_000), (Profile::Events3, 30000, 800_000)],
+        profiles: vec![(Profile::Events, 60000, 1_000_000), (Profile::Events3, 100000, 2_000_000)],
         nontrivial: |s| has(s, "event_overtook_upd"),
         rule: "world steps plus server event emissions of five kinds (mapped dependent, independent, unordered, unreliable, trigger with target) in any frame, \
                per-channel delivery so events overtake pending update messages; oracle: a dependent event is seen by game logic only at an update tick >= the tick \
@@ -186,7 +177,7 @@ pub fn c05() -> EngineProp {
     EngineProp {
         id: "C05",
         oracles: Oracles { ev_once: true, ..Default::default() },
-        profiles: vec![(Profile::Events, 24000, 600_000), (Profile::Auth, 8000, 200_000), (Profile::Events3, 16000, 400_000), (Profile::Sessions, 8000, 200_000)],
+        profiles: vec![(Profile::Events, 40000, 800_000), (Profile::Auth, 12000, 200_000), (Profile::Events3, 40000, 800_000), (Profile::Sessions, 30000, 600_000)],
         nontrivial: |s| s.semits.len() + s.cemits.len() >= 3 && (s.clients.len() >= 2),
         rule: "sequences of emissions of 10 event types in both directions, all send modes, clients connecting / authorizing / disconnecting at generated points, \
                legal per-channel delivery; oracle: model of MUST / MAY / MUST-NOT recipient sets per emission; at quiescence reliable events seen exactly once by MUST, \
@@ -200,7 +191,7 @@ pub fn c07() -> EngineProp {
     EngineProp {
         id: "C07",
         oracles: Oracles { unauth: true, structure: true, converge: true, ..Default::default() },
-        profiles: vec![(Profile::Auth, 30000, 800_000)],
+        profiles: vec![(Profile::Auth, 80000, 1_600_000)],
         nontrivial: |s| s.cfg.auth != 0 && s.world_ops >= 2,
         rule: "C01/C04 steps under AuthMethod::{ProtocolCheck, Custom, None}, hash delivered early / late / never, mismatching clients, clients the game never authorizes; \
                oracle: every message drained for a client without AuthorizedClient is on the channel of an independent event; from authorization on C03 applies \
